@@ -2,9 +2,9 @@
 # mix entries: (profile, variant, share).  nontrivial: list of alternatives, each a list of "probe" or "probe>=N" terms.
 prop("DEV", mix=[("base", "default", 1.0)], quick_s=20, claims_all=True, rule="dev profile", nontrivial=[])
 
-prop("C01", opts={"memprop": "C01"}, also=["C04/wrong-response", "C04/missing-response"],
-     mix=[("c01", "default", 3), ("c01", "small", 2), ("c01", "batch1", 1), ("base", "default", 1)],
-     quick_mix=[("c01", "default", 2), ("c01", "small", 1)],
+prop("C01", opts={"memprop": "C01"}, also=["C04/wrong-response", "C04/missing-response", "C11/C01:.*"],
+     mix=[("c01", "default", 3), ("c01", "small", 2), ("c01", "batch1", 1), ("base", "default", 1), ("c11", "wbuf", 1)],
+     quick_mix=[("c01", "default", 2), ("c01", "small", 1), ("c11", "wbuf", 0.7)],
      quick_s=25, thorough_s=600,
      rule="seeded plans of add/remove/change/fetch/unfetch/connect/disconnect by 2-6 peers on raw, unix and WebSocket transports, random segmentation and event batching; "
           "every frame is matched against the reference model and per-fetch replicas are compared at every quiescent point. non-trivial: at least one fetch received a notification; distinct by trace hash",
@@ -20,7 +20,7 @@ prop("C03", opts={"memprop": "C03"}, also=["C14/wrong-deadline", "C14/early-expi
      nontrivial=[["owner_replied"], ["timed_out"], ["owner_left_with_inflight"]],
      required_probes=["owner_replied", "timed_out", "owner_left_with_inflight", "caller_left_with_inflight", "duplicate_reply", "forged_reply", "reply_unknown_or_late", "self_routed"])
 
-prop("C04", opts={"memprop": "C04", "shadowprop": "C04"},
+prop("C04", opts={"memprop": "C04", "shadowprop": "C04", "afprop": "C04"},
      mix=[("c04", "default", 3), ("c04", "small", 2), ("c04+af", "default", 1.5), ("c15h", "heapcap", 1)],
      quick_mix=[("c04", "default", 2), ("c04", "small", 1), ("c04+af", "default", 1), ("c15h", "heapcap", 0.7)],
      quick_s=25, thorough_s=600,
@@ -48,9 +48,9 @@ prop("C14",
      nontrivial=[["timer_armed", "timed_out"], ["timer_armed", "owner_replied"]],
      required_probes=["timed_out", "owner_replied", "timer_and_io_same_batch", "timer_and_disconnect_same_batch", "timeout_precedence:request", "timeout_precedence:element", "timeout_precedence:default", "timeout_refused", "expiry_after_resolution"])
 
-prop("C02", opts={"memprop": "C02"}, also=["C03/unexpected-response", "C03/missing-response", "C03/wrong-response", "C05/missing-response", "C14/no-timeout-answer", "C14/unexpected-response"],
-     mix=[("c02", "default", 3), ("c02", "small", 1), ("base", "default", 1), ("base", "batch1", 0.5), ("c03", "default", 1)],
-     quick_mix=[("c02", "default", 2), ("base", "default", 1), ("c03", "default", 1)],
+prop("C02", opts={"memprop": "C02"}, also=["C03/unexpected-response", "C03/missing-response", "C03/wrong-response", "C05/missing-response", "C14/no-timeout-answer", "C14/unexpected-response", "C10/.*"],
+     mix=[("c02", "default", 3), ("c02", "small", 1), ("base", "default", 1), ("base", "batch1", 0.5), ("c03", "default", 1), ("c10", "wbuf", 1)],
+     quick_mix=[("c02", "default", 2), ("base", "default", 1), ("c03", "default", 1), ("c10", "wbuf", 0.7)],
      quick_s=25, thorough_s=600,
      rule="(a) hostile JSON-RPC shapes (every method name, missing/mistyped/duplicated members, ids of every JSON type, batches, response objects as requests) checked by a per-connection ledger of outstanding ids; "
           "(b) well-formed traffic checked frame by frame against the reference model, where a batch must behave like its members sent one by one. non-trivial: >=3 requests with id answered; distinct by trace hash",
@@ -76,7 +76,7 @@ prop("C07", opts={"memprop": "C07"},
      nontrivial=[["timer_armed"], ["reauth_same_user"], ["reauth_other_user"], ["sigterm_mid_plan"], ["sigterm_inside_batch"], ["drop:length prefix above the maximum"], ["ws_upgraded"]],
      required_probes=["timer_armed", "timed_out", "owner_left_with_inflight", "sigterm_mid_plan", "sigterm_inside_batch", "sigterm_with_clients", "idle_baseline_checked", "exit_checked", "routing_table_full", "authenticated"])
 
-prop("C08", opts={"memprop": "C08", "shadowprop": "C08"},
+prop("C08", opts={"memprop": "C08", "shadowprop": "C08", "afprop": "C08"},
      mix=[("c08", "default", 3), ("c08", "localonly", 1.5), ("c08", "small", 1), ("c08+af", "default", 1)],
      quick_mix=[("c08", "default", 2), ("c08", "localonly", 1), ("c08+af", "default", 0.7)],
      quick_s=30, thorough_s=600,
@@ -86,9 +86,9 @@ prop("C08", opts={"memprop": "C08", "shadowprop": "C08"},
      nontrivial=[["authenticated", "setcall_unauthorized"], ["authenticated", "setcall_authorized"], ["authenticated", "notify_add"], ["wrong_password_or_user", "notify_add"]],
      required_probes=["authenticated", "wrong_password_or_user", "reauth_other_user", "reauth_same_user", "authenticate_after_fetch", "setcall_unauthorized", "setcall_authorized", "accepted:ws", "accepted:uds"])
 
-prop("C16", opts={"memprop": "C16"},
-     mix=[("c16", "default", 3), ("c16", "small", 2), ("c16", "batch1", 0.5)],
-     quick_mix=[("c16", "default", 2), ("c16", "small", 1)],
+prop("C16", opts={"memprop": "C16", "afprop": "C16"},
+     mix=[("c16", "default", 3), ("c16", "small", 2), ("c16", "batch1", 0.5), ("c16+af", "default", 1.5)],
+     quick_mix=[("c16", "default", 2), ("c16", "small", 1), ("c16+af", "default", 1)],
      quick_s=25, thorough_s=600,
      rule="seeded rule objects (every subset and order of the six matchers, caseInsensitive true/false/absent/mistyped/repeated, operands built around the live paths: empty, equal, proper prefixes, suffixes and infixes, case variants, "
           "non-ASCII, longer than the path; refused shapes: unknown and case-variant names, wrongly typed operands, more than the maximum, no matcher) pushed through all three evaluation sites of the simulated daemon - fetch after the "
